@@ -184,6 +184,7 @@ static void gen_knobs(bool quick) {
     K.short_write_pm = sim_rndn(3) == 0 ? (int)sim_rndn(400) : 0;
     K.eintr_pm = sim_rndn(3) == 0 ? (int)sim_rndn(150) : 0;
     K.zombie_delay_us = sim_rndn(2) ? (int)sim_rndn(300) : 0;
+    K.stack_mode = sim_rndn(3) == 0 ? 1 + (int)sim_rndn(256) : 0;
     K.max_steps = quick ? 4000000 : 30000000; K.max_blocks = 2000000000ull;
 }
 static void plan_gen(CPlan *P, uint64_t seed, const RunOpts *o) {
